@@ -19,6 +19,8 @@ from ..core import PropCheck
 
 
 def observe_suspended(w: progs.World, problems: List[str], records: List[dict], mode: str = "trickery"):
+    from stackscope._lowlevel import InspectionWarning as _IW
+
     import stackscope
     from stackscope import lowlevel
 
@@ -38,7 +40,7 @@ def observe_suspended(w: progs.World, problems: List[str], records: List[dict], 
     ctxs = fr[0].contexts
     got = [(ids.get(id(c.obj), "?" if c.obj is not None else None), c.is_async, c.is_exiting) for c in ctxs]
     want = [(mid, type(w.mgrs[mid]).__name__ == "AMgr", ex) for mid, ex in truth]
-    ws = [str(x.message)[:160] for x in caught if issubclass(x.category, lowlevel.InspectionWarning if hasattr(lowlevel, "InspectionWarning") else Warning)]
+    ws = [str(x.message)[:160] for x in caught if issubclass(x.category, _IW)]
     rec = {"lasti": w.frame.f_lasti, "got": got, "want": want, "warnings": ws}
     records.append(rec)
     if mode == "trickery":
